@@ -128,8 +128,8 @@ Proof.
   { destruct (negb (c_intx cn)); inversion H; subst; [apply keeps_refl | apply keeps_set_conn]. }
   destruct (beq (upper (trim b)) (bs "WATCH")).
   { destruct (len (FBulk b :: rest) <? 2); [kdone H|]. destruct (c_intx cn); [kdone H|].
-    destruct (watch_loop_partial (c_db cn) (get_trk s (c_db cn)) rest (c_watched cn)) as [[t' w'] okb].
-    inversion H; subst. eapply keeps_trans; [apply keeps_set_trk | apply keeps_set_conn]. }
+    destruct (watch_loop_partial now (c_db cn) (get_db s (c_db cn)) (get_trk s (c_db cn)) rest (c_watched cn)) as [[[d' t'] w'] okb].
+    inversion H; subst. eapply keeps_trans; [eapply keeps_trans; [apply keeps_set_db | apply keeps_set_trk] | apply keeps_set_conn]. }
   destruct (beq (upper (trim b)) (bs "UNWATCH")).
   { inversion H; subst. eapply keeps_trans; [apply unwatch_all_keeps | apply keeps_set_conn]. }
   destruct (beq (upper (trim b)) (bs "AUTH")); [eapply h_auth_keeps; exact H|].
